@@ -66,3 +66,19 @@ def full_convolve(native, kernel):
             if ys0 < ys1 and xs0 < xs1:
                 out[ys0 + dy:ys1 + dy, xs0 + dx:xs1 + dx] += k[a, b] * img[ys0:ys1, xs0:xs1]
     return out
+
+
+def blurring_region_fast(mask, kshape):
+    """Same set as blurring_region, by dilating the unmasked map with shifted copies (for large frames)."""
+    m = np.asarray(mask, dtype=bool)
+    h, w = m.shape
+    hy, hx = kshape[0] // 2, kshape[1] // 2
+    un = ~m
+    dil = np.zeros_like(m)
+    leaves = bool(un[:hy].any() or un[h - hy:].any() if hy else False) or bool(un[:, :hx].any() or un[:, w - hx:].any() if hx else False)
+    for dy in range(-hy, hy + 1):
+        for dx in range(-hx, hx + 1):
+            ys0, ys1 = max(0, -dy), min(h, h - dy)
+            xs0, xs1 = max(0, -dx), min(w, w - dx)
+            dil[ys0 + dy:ys1 + dy, xs0 + dx:xs1 + dx] |= un[ys0:ys1, xs0:xs1]
+    return dil & m, leaves
